@@ -4,6 +4,7 @@ import (
 	"bytes"
 	"encoding/base64"
 	"fmt"
+	"runtime"
 	"sync/atomic"
 
 	"github.com/RoaringBitmap/roaring/v2"
@@ -82,6 +83,7 @@ func makeReceiver(k int) (*roaring.Bitmap, any) {
 		return roaring.New(), nil
 	case 1: // larger: many chunks of mixed kinds
 		b := shapes.Spec{Chunks: []shapes.ChunkSpec{{Key: 0, Mask: bit(shapes.Full)}, {Key: 1, Mask: bit(shapes.S4095)}, {Key: 2, Mask: bit(shapes.Big)}, {Key: 3, Mask: bit(shapes.Lo)}, {Key: 9, Mask: bit(shapes.Lo)}, {Key: 10, Mask: bit(shapes.Lo)}, {Key: 11, Mask: bit(shapes.R2047)}}, Mode: shapes.Opt}.Build()
+		defer runtime.KeepAlive(b)
 		return b.B, b
 	case 2: // smaller: one tiny chunk, copy-on-write enabled
 		b := roaring.BitmapOf(7)
@@ -89,6 +91,7 @@ func makeReceiver(k int) (*roaring.Bitmap, any) {
 		return b, nil
 	default: // zero-copy loaded from another buffer
 		b := shapes.Spec{Chunks: []shapes.ChunkSpec{{Key: 0, Mask: bit(shapes.Lo, shapes.Hi)}, {Key: 5, Mask: bit(shapes.Big)}}, Mode: shapes.Opt, Share: shapes.ZeroC}.Build()
+		defer runtime.KeepAlive(b)
 		return b.B, b
 	}
 }
@@ -122,6 +125,7 @@ func runC05(c *Ctx) {
 	rt := &explore.Product{Name: "writers x decoders x receivers", Dims: []int{len(corpus), len(decoderNames), nReceivers}, Deadline: c.Budget(40, 900),
 		Run: func(idx []int) (string, *ev.Fail) {
 			src := corpus[idx[0]].Build()
+			defer runtime.KeepAlive(src)
 			data, f := writers32(src.B)
 			if f != nil {
 				return "", f
@@ -159,6 +163,7 @@ func runC05(c *Ctx) {
 	sw := &explore.Product{Name: "decoded bitmap x depth-1 operation sweep", Dims: []int{len(swc), len(decoderNames)}, Deadline: c.Budget(70, 1300), Execs: &evals,
 		Run: func(idx []int) (string, *ev.Fail) {
 			src := swc[idx[0]].Build()
+			defer runtime.KeepAlive(src)
 			data, err := src.B.ToBytes()
 			if err != nil {
 				return "", fail("ToBytes", "error", "%v", err)
@@ -212,6 +217,7 @@ func runC05(c *Ctx) {
 	rc := &explore.Product{Name: fmt.Sprintf("ReadFrom x reader chunkings (<= %d deviations) x EOF styles", bound), Dims: []int{len(small), 2}, Deadline: c.Budget(95, 1600), Execs: &chunkRuns,
 		Run: func(idx []int) (string, *ev.Fail) {
 			src := small[idx[0]].Build()
+			defer runtime.KeepAlive(src)
 			data, _ := src.B.ToBytes()
 			withTrailer := append(append([]byte(nil), data...), 0xEE, 0xEE, 0xEE)
 			stream := withTrailer
@@ -250,6 +256,7 @@ func runC05(c *Ctx) {
 	wf := &explore.Product{Name: "WriteTo x writer failure offsets x failure modes", Dims: []int{len(corpus)}, Deadline: c.Budget(110, 1750), Execs: &wruns,
 		Run: func(idx []int) (string, *ev.Fail) {
 			src := corpus[idx[0]].Build()
+			defer runtime.KeepAlive(src)
 			data, _ := src.B.ToBytes()
 			offs := map[int]struct{}{}
 			if len(data) <= 700 {
